@@ -428,6 +428,14 @@ class MutationAnalysis:
                                 roots |= self._taint(fi, f.value, st)
                             if roots:
                                 emit("layout", roots, sub, f"order='{kw.value.value}' makes the result depend on the memory layout of the argument")
+                    if isinstance(f, ast.Attribute) and f.attr == "astype" and sub.args and isinstance(sub.args[0], ast.Attribute) and sub.args[0].attr == "dtype":
+                        # v.astype(a.dtype): a value whose dtype is fixed otherwise (a fitted line, a mean) forced into the dtype of an
+                        # argument - an integer-typed argument truncates it
+                        to_ = self._dtype_roots(fi, sub.args[0].value, st)
+                        from_ = self._dtype_roots(fi, f.value, st)
+                        if to_ and (from_ is None or not (set(_unbox(from_)) & set(_unbox(to_)))):
+                            emit("dtype", frozenset(_unbox(to_)), sub,
+                                 "a value is cast to the dtype of an argument (.astype(arg.dtype)): float-valued results are truncated when that argument is integer typed")
                     r = self.lk.resolve(fi.module, f)
                     if r.kind == "dep" and r.obj is not None:
                         nm = getattr(r.obj, "__name__", "")
